@@ -29,27 +29,31 @@ class Transport:
 
     def disconnect(self):
         """Disconnect from the transport."""
-        if not self.protocol or not self.protocol.transport:
+        # Read the shared attributes once, another thread may clear them.
+        protocol = self.protocol
+        transport = protocol.transport if protocol else None
+        if not protocol or not transport:
             self.protocol = None  # Make sure protocol is None
             return
         _LOGGER.info("Disconnecting from gateway")
-        self.protocol.transport.close()
+        transport.close()
         self.protocol = None
 
     def send(self, message):
         """Write a message to the gateway."""
-        if not message or not self.protocol or not self.protocol.transport:
+        # Read the shared attributes once, another thread may clear them.
+        protocol = self.protocol
+        transport = protocol.transport if protocol else None
+        if not message or not protocol or not transport:
             return
         if not self.can_log:
             _LOGGER.debug("Sending %s", message.strip())
         try:
-            self.protocol.transport.write(message.encode())
+            transport.write(message.encode())
         except OSError as exc:
-            _LOGGER.error(
-                "Failed writing to transport %s: %s", self.protocol.transport, exc
-            )
-            self.protocol.transport.close()
-            self.protocol.conn_lost_callback()
+            _LOGGER.error("Failed writing to transport %s: %s", transport, exc)
+            transport.close()
+            protocol.conn_lost_callback()
 
 
 class SyncTransport(Transport):
